@@ -619,6 +619,52 @@ class BitfieldEngine(object):
                              f.astart, f.alen), kind="location")
             w.ops_completed += 1
             return
+        if which in (0, 1) and t.draw(4) == 0:
+            # mask / value of one named field
+            ident = IDENTS[t.draw(len(IDENTS))]
+            f = self.resolve(ident, v.fv)
+            meth = "get_mask" if which == 0 else "get_value"
+            w.trace.ev("op", meth + "-field")
+            w.ops.append("%s.%s(field=%r)" % (v.name, meth, ident))
+            w.probe("single_field_query")
+            st, val = self.call(getattr(v.obj, meth), field=ident)
+            w.ops[-1] += " -> %s" % (st if st != "ok" else hex(val))
+            if f is None:
+                if st != "Unavailable":
+                    w.violate("LAY", "%s(field=%r) of a field that is not "
+                              "available in this view returned %s"
+                              % (meth, ident, st),
+                              kind="field-query-unavailable")
+                return
+            if f.astart is None or (which == 1 and ident not in v.fv):
+                if st == "ok" and not (f.dlen is not None and
+                                       f.dstart is not None and
+                                       (which == 0 or ident in v.fv)):
+                    w.violate("MASK" if which == 0 else "VAL",
+                              "%s(field=%r) succeeded for a field without %s"
+                              % (meth, ident, "a position" if f.astart is None
+                                 else "a value"), kind="field-query-undefined")
+                return
+            want = (((1 << f.alen) - 1) if which == 0 else v.fv[ident]) \
+                << f.astart
+            if st != "ok" or val != want:
+                w.violate("MASK" if which == 0 else "KEY",
+                          "%s.%s(field=%r) = %s; the field lies at (%d, %d)%s"
+                          % (v.name, meth, ident,
+                             hex(val) if st == "ok" else st, f.astart, f.alen,
+                             "" if which == 0 else " and holds %#x"
+                             % v.fv[ident]), kind="field-query")
+            # the objects also describe themselves
+            try:
+                repr(v.obj)
+                v.obj == v.obj
+                v.obj != v.obj
+            except Exception as e:
+                w.violate("E", "repr()/== of a bit field raised %s: %s"
+                          % (type(e).__name__, e), kind="unexpected-exception",
+                          exc=type(e).__name__, scope=self.cur_scope)
+            w.ops_completed += 1
+            return
         if which == 0:
             # mask, maybe tag-restricted
             tag = TAGS[t.draw(3)] if t.draw(2) else None
